@@ -27,6 +27,7 @@ type Engine struct {
 	accCache  map[string][]accessorImpl
 	typeInv   map[string]string
 	guards    map[string]string // "pkg.Type.field" -> lock field name
+	overlay   map[string][]byte // synthesised spec files (for executable contracts in replays)
 	broken    map[string]string // synthesised clause functions that no longer type-check
 	keySorts  *Sorts // only for typeKey computations that must be unit independent
 }
